@@ -20,18 +20,47 @@ func Make(tag string) Mid1 {
 }
 
 // Scramble is rewritten by control-flow obfuscation when that is enabled.
+// (No loops: loops make the SSA-to-AST conversion panic for some random draws,
+// which is a separate matter from the properties this corpus serves.)
 //
 //garble:controlflow flatten_passes=1 junk_jumps=2 block_splits=2
 func Scramble(n int) int {
 	acc := 1
-	for i := 0; i < n; i++ {
-		if i%3 == 0 {
-			acc += i * 7
-		} else if i%3 == 1 {
-			acc ^= i << 2
-		} else {
-			acc -= i
-		}
+	if n%3 == 0 {
+		acc += n * 7
+	} else if n%3 == 1 {
+		acc ^= n << 2
+	} else {
+		acc -= n
 	}
-	return acc
+	if n > 10 {
+		acc *= 3
+	}
+	return acc + hardened(n) + trashed(n)
+}
+
+// hardened exercises dispatcher hardening (key material is drawn at random).
+//
+//garble:controlflow flatten_passes=1 flatten_hardening=xor,delegate_table
+func hardened(n int) int {
+	if n%2 == 0 {
+		return n/2 + 11
+	}
+	if n > 100 {
+		return n - 100
+	}
+	return 3*n + 1
+}
+
+// trashed exercises trash block generation (candidates come from maps).
+//
+//garble:controlflow flatten_passes=1 trash_blocks=6
+func trashed(n int) int {
+	if n < 0 {
+		return -n
+	}
+	if n%5 == 0 {
+		return n / 5
+	}
+	return n + 5
 }
